@@ -308,3 +308,18 @@ Section Aggregation.
     predict n x = do f <- forward n x; match last_opt (fw_post f) with Some t => Ok t | None => Panic P_unwrap end.
   Proof. reflexivity. Qed.
 End Aggregation.
+
+(* C04, batch sizes beyond the data set (B > N): `learn` returns the same for every two batch sizes
+   that are at least the number of inputs and of targets - the N samples are the single partial group
+   of each epoch.  (The extracted driver represents a requested usize batch size beyond the data by
+   N + 1; this theorem is what makes that representation faithful.) *)
+Lemma learn_batch_beyond (N : Num) (pm : pmap_t) (n : network N) (inputs targets : list (tensor N))
+      (validation : option (list (tensor N) * list (tensor N) * Z)) (b1 b2 : nat) (epochs : Z) :
+  0 < b1 -> 0 < b2 ->
+  length inputs <= b1 -> length inputs <= b2 -> length targets <= b1 -> length targets <= b2 ->
+  learn pm n inputs targets validation b1 epochs = learn pm n inputs targets validation b2 epochs.
+Proof.
+  intros H1 H2 I1 I2 T1 T2. unfold learn.
+  rewrite (chunks_beyond inputs H1 H2 I1 I2), (chunks_beyond targets H1 H2 T1 T2).
+  destruct b1 as [|b1]; [lia|]. destruct b2 as [|b2]; [lia|]. reflexivity.
+Qed.
